@@ -674,3 +674,413 @@ Proof.
   rewrite H1, H2. reflexivity.
 Qed.
 Print Assumptions evaluate_micro_is_iso.
+
+(* ------------------------------------------------------------------ *)
+(* 7. data mask predicates (ISO Table 10), unbounded coordinates       *)
+(* ------------------------------------------------------------------ *)
+Lemma land1 x : Z.land x 1 = x mod 2.
+Proof. exact (Z.land_ones x 1 ltac:(lia)). Qed.
+
+Theorem mask_fn_is_iso : forall (micro : bool) k i j,
+  0 <= k < (if micro then 4 else 8) -> 0 <= i -> 0 <= j ->
+  mask_fn micro k i j = iso_mask_for micro k i j.
+Proof.
+  intros micro k i j Hk _ _. destruct micro.
+  - assert (Hc : k = 0 \/ k = 1 \/ k = 2 \/ k = 3) by lia.
+    destruct Hc as [-> | [-> | [-> | ->]]];
+      unfold mask_fn, iso_mask_for, micro_mask_index, iso_mask; cbv beta iota zeta;
+      rewrite ?land1; reflexivity.
+  - assert (Hc : k = 0 \/ k = 1 \/ k = 2 \/ k = 3 \/ k = 4 \/ k = 5 \/ k = 6 \/ k = 7) by lia.
+    destruct Hc as [->|[->|[->|[->|[-> | [-> | [-> | ->]]]]]]];
+      unfold mask_fn, iso_mask_for, micro_mask_index, iso_mask; cbv beta iota zeta;
+      rewrite ?land1; reflexivity.
+Qed.
+Print Assumptions mask_fn_is_iso.
+
+(* ------------------------------------------------------------------ *)
+(* 8. mask selection                                                   *)
+(* ------------------------------------------------------------------ *)
+(* the step function of Spec.best_index *)
+Definition bi_step (micro : bool) (st : option Z * Z) (ks : Z * Z) : option Z * Z :=
+  let (best, bi) := st in let (k, s) := ks in
+  match best with
+  | None => (Some s, k)
+  | Some b => if (if micro then b <? s else s <? b) then (Some s, k) else (best, bi) end.
+
+Lemma best_index_unfold micro scs :
+  best_index micro scs = snd (fold_left (bi_step micro) (combine (zrange_aux (length scs) 0) scs) (None, 0)).
+Proof.
+  unfold best_index, zrange. replace (Z.to_nat (lenZ scs - 0)) with (length scs) by (unfold lenZ; lia).
+  reflexivity.
+Qed.
+Lemma bi_step_none micro bi k s : bi_step micro (None, bi) (k, s) = (Some s, k).
+Proof. reflexivity. Qed.
+Lemma bi_step_some micro b bi k s :
+  bi_step micro (Some b, bi) (k, s) = if (if micro then b <? s else s <? b) then (Some s, k) else (Some b, bi).
+Proof. reflexivity. Qed.
+Lemma bi_fold_cons micro s r off st :
+  fold_left (bi_step micro) (combine (zrange_aux (length (s :: r)) off) (s :: r)) st
+  = fold_left (bi_step micro) (combine (zrange_aux (length r) (off + 1)) r) (bi_step micro st (off, s)).
+Proof. reflexivity. Qed.
+
+Lemma bi_fold_range micro : forall l off st,
+  0 <= snd st < off ->
+  0 <= snd (fold_left (bi_step micro) (combine (zrange_aux (length l) off) l) st) < off + lenZ l.
+Proof.
+  induction l as [|s r IH]; intros off st Hst.
+  - cbn [length zrange_aux combine fold_left]. unfold lenZ. cbn [length]. lia.
+  - rewrite bi_fold_cons.
+    assert (Hstep : 0 <= snd (bi_step micro st (off, s)) < off + 1).
+    { destruct st as [[b|] bi]; cbn [snd] in Hst.
+      - rewrite bi_step_some. destruct (if micro then b <? s else s <? b); cbn [snd]; lia.
+      - rewrite bi_step_none. cbn [snd]. lia. }
+    specialize (IH (off + 1) _ Hstep). unfold lenZ in *. cbn [length]. lia.
+Qed.
+
+Lemma best_index_range micro scs : scs <> [] -> 0 <= best_index micro scs < lenZ scs.
+Proof.
+  intros Hne. destruct scs as [|s r]; [congruence|].
+  rewrite best_index_unfold, bi_fold_cons, bi_step_none.
+  pose proof (bi_fold_range micro r (0 + 1) (Some s, 0) ltac:(cbn [snd]; lia)) as H.
+  unfold lenZ in *. cbn [length]. lia.
+Qed.
+
+Lemma nth_zrange_aux : forall n a i, (i < n)%nat -> nth i (zrange_aux n a) 0 = a + Z.of_nat i.
+Proof.
+  induction n as [|n IH]; intros a i Hi; [lia|].
+  destruct i as [|i]; cbn [zrange_aux nth]; [lia|]. rewrite IH by lia. lia.
+Qed.
+
+Section Selection.
+  Variables (size : Z) (micro : bool) (m : mat) (reg : list (Z * Z)).
+
+  (* candidate k and its score, as computed inside find_and_apply_best_mask *)
+  Definition cand (k : Z) : mat := apply_mask size m reg (mask_fn micro k).
+  Definition score_of (mk : mat) : Z :=
+    if micro then evaluate_micro_mask size (rows_of size mk) else evaluate_mask size (rows_of size mk).
+  Definition scores (ks : list Z) : list Z := map (fun k => score_of (cand k)) ks.
+
+  Lemma best_mask_loop_cons k r bs best :
+    best_mask_loop size micro m reg (k :: r) bs best
+    = if (if micro then bs <? score_of (cand k) else score_of (cand k) <? bs)
+      then best_mask_loop size micro m reg r (score_of (cand k)) (Some (k, cand k))
+      else best_mask_loop size micro m reg r bs best.
+  Proof. reflexivity. Qed.
+
+  (* invariant: the loop state (best score, best candidate) mirrors the state of best_index *)
+  Lemma best_mask_loop_gen (full : list Z) : forall ks off bs bi,
+    ks = skipn off full ->
+    best_mask_loop size micro m reg ks bs (Some (nth (Z.to_nat bi) full 0, cand (nth (Z.to_nat bi) full 0)))
+    = Some (nth (Z.to_nat (snd (fold_left (bi_step micro)
+                                 (combine (zrange_aux (length (scores ks)) (Z.of_nat off)) (scores ks)) (Some bs, bi)))) full 0,
+            cand (nth (Z.to_nat (snd (fold_left (bi_step micro)
+                                 (combine (zrange_aux (length (scores ks)) (Z.of_nat off)) (scores ks)) (Some bs, bi)))) full 0)).
+  Proof.
+    induction ks as [|k r IH]; intros off bs bi Hks; [reflexivity|].
+    symmetry in Hks. destruct (skipn_eq_cons 0 off full k r Hks) as [Hk Hr].
+    rewrite best_mask_loop_cons.
+    change (scores (k :: r)) with (score_of (cand k) :: scores r).
+    rewrite bi_fold_cons, bi_step_some.
+    replace (Z.of_nat off + 1) with (Z.of_nat (S off)) by lia.
+    destruct (if micro then bs <? score_of (cand k) else score_of (cand k) <? bs).
+    - pose proof (IH (S off) (score_of (cand k)) (Z.of_nat off) (eq_sym Hr)) as IH'.
+      rewrite Nat2Z.id, Hk in IH'. exact IH'.
+    - apply IH. symmetry. exact Hr.
+  Qed.
+
+  (* The automatic choice is the FIRST index with minimal (QR) / maximal (Micro QR) score. *)
+  Theorem best_mask_loop_is_best_index (ks : list Z) :
+    ks <> [] ->
+    (forall s, In s (scores ks) -> if micro then 0 <= s else s < max_penalty) ->
+    best_mask_loop size micro m reg ks (if micro then -1 else max_penalty) None
+    = Some (nth (Z.to_nat (best_index micro (scores ks))) ks 0,
+            cand (nth (Z.to_nat (best_index micro (scores ks))) ks 0)).
+  Proof.
+    intros Hne Hb. destruct ks as [|k0 r]; [congruence|].
+    rewrite best_mask_loop_cons.
+    assert (Hfirst : (if micro then (if micro then -1 else max_penalty) <? score_of (cand k0)
+                      else score_of (cand k0) <? (if micro then -1 else max_penalty)) = true).
+    { specialize (Hb (score_of (cand k0)) (or_introl eq_refl)). destruct micro; lia. }
+    rewrite Hfirst. rewrite best_index_unfold.
+    change (scores (k0 :: r)) with (score_of (cand k0) :: scores r).
+    rewrite bi_fold_cons, bi_step_none.
+    pose proof (best_mask_loop_gen (k0 :: r) r 1 (score_of (cand k0)) 0 eq_refl) as H.
+    change (nth (Z.to_nat 0) (k0 :: r) 0) with k0 in H. exact H.
+  Qed.
+End Selection.
+Print Assumptions best_mask_loop_is_best_index.
+
+Lemma scores_length size micro m reg ks : length (scores size micro m reg ks) = length ks.
+Proof. unfold scores. apply map_length. Qed.
+
+(* specialisation to the candidate lists range(8) / range(4) *)
+Lemma best_mask_zrange size micro m reg n :
+  0 < n ->
+  (forall s, In s (scores size micro m reg (zrange 0 n)) -> if micro then 0 <= s else s < max_penalty) ->
+  best_mask_loop size micro m reg (zrange 0 n) (if micro then -1 else max_penalty) None
+  = Some (best_index micro (scores size micro m reg (zrange 0 n)),
+          cand size micro m reg (best_index micro (scores size micro m reg (zrange 0 n)))).
+Proof.
+  intros Hn Hb.
+  assert (Hlen : length (zrange 0 n) = Z.to_nat n) by (unfold zrange; rewrite zrange_aux_length; lia).
+  assert (Hne : zrange 0 n <> []).
+  { intros Hnil. rewrite Hnil in Hlen. cbn [length] in Hlen. lia. }
+  rewrite (best_mask_loop_is_best_index size micro m reg (zrange 0 n) Hne Hb).
+  assert (Hr : 0 <= best_index micro (scores size micro m reg (zrange 0 n)) < n).
+  { pose proof (best_index_range micro (scores size micro m reg (zrange 0 n))) as H.
+    unfold lenZ in H. rewrite scores_length, Hlen in H.
+    assert (Hne' : scores size micro m reg (zrange 0 n) <> []).
+    { intros Hnil. apply (f_equal (@length Z)) in Hnil. rewrite scores_length, Hlen in Hnil.
+      cbn [length] in Hnil. lia. }
+    specialize (H Hne'). lia. }
+  set (bi := best_index micro (scores size micro m reg (zrange 0 n))) in *.
+  assert (Hnth : nth (Z.to_nat bi) (zrange 0 n) 0 = bi).
+  { unfold zrange. rewrite nth_zrange_aux by lia. lia. }
+  rewrite Hnth. reflexivity.
+Qed.
+
+Theorem best_mask_qr size m reg :
+  (forall s, In s (scores size false m reg (zrange 0 8)) -> s < max_penalty) ->
+  best_mask_loop size false m reg (zrange 0 8) max_penalty None
+  = Some (best_index false (scores size false m reg (zrange 0 8)),
+          cand size false m reg (best_index false (scores size false m reg (zrange 0 8)))).
+Proof. intros Hb. apply (best_mask_zrange size false m reg 8); [lia|exact Hb]. Qed.
+
+Theorem best_mask_micro size m reg :
+  (forall s, In s (scores size true m reg (zrange 0 4)) -> 0 <= s) ->
+  best_mask_loop size true m reg (zrange 0 4) (-1) None
+  = Some (best_index true (scores size true m reg (zrange 0 4)),
+          cand size true m reg (best_index true (scores size true m reg (zrange 0 4)))).
+Proof. intros Hb. apply (best_mask_zrange size true m reg 4); [lia|exact Hb]. Qed.
+
+(* ---- side conditions: the scores stay inside (-1, sys.maxsize) ---- *)
+Lemma bit_z_bounds b : 0 <= bit_z b <= 1.
+Proof. unfold bit_z. destruct b; lia. Qed.
+
+Theorem evaluate_micro_nonneg : forall n rows, 0 <= evaluate_micro_mask n rows.
+Proof.
+  intros n rows. unfold evaluate_micro_mask. cbv zeta.
+  change (fold_left (fun a r => a + bit_z (last r false)) (tl rows) 0)
+    with (lsum (fun r => bit_z (last r false)) (tl rows)).
+  change (fold_left (fun a b => a + bit_z b) (tl (last rows [])) 0) with (lsum bit_z (tl (last rows []))).
+  assert (H1 : 0 <= lsum (fun r => bit_z (last r false)) (tl rows))
+    by (apply lsum_nonneg; intros r _; apply bit_z_bounds).
+  assert (H2 : 0 <= lsum bit_z (tl (last rows []))) by (apply lsum_nonneg; intros b _; apply bit_z_bounds).
+  destruct (lsum (fun r => bit_z (last r false)) (tl rows) <=? lsum bit_z (tl (last rows []))); lia.
+Qed.
+
+Lemma n1_line_aux_le : forall l prev run, 0 <= run -> n1_line_aux prev run l <= run + lenZ l.
+Proof.
+  unfold lenZ. induction l as [|b r IH]; intros prev run Hrun; cbn [n1_line_aux length].
+  - destruct (5 <=? run); lia.
+  - destruct (Bool.eqb b prev).
+    + specialize (IH prev (run + 1) ltac:(lia)). lia.
+    + specialize (IH b 1 ltac:(lia)). destruct (5 <=? run); lia.
+Qed.
+Lemma n1_line_le l : n1_line l <= lenZ l.
+Proof.
+  destruct l as [|b r]; [unfold lenZ; cbn [n1_line length]; lia|].
+  cbn [n1_line]. pose proof (n1_line_aux_le r b 1 ltac:(lia)) as H. unfold lenZ in *. cbn [length]. lia.
+Qed.
+Lemma iso_n3_line_le l : iso_n3_line l <= 40 * lenZ l.
+Proof.
+  rewrite iso_n3_line_rsum. unfold rsum.
+  pose proof (zsum_le (n3_w l) 40 (Z.to_nat (lenZ l - 6 - 0)) 0) as H.
+  assert (Hw : forall p, 0 <= p < 0 + Z.of_nat (Z.to_nat (lenZ l - 6 - 0)) -> n3_w l p <= 40).
+  { intros p _. unfold n3_w. destruct (n3_cond l p); lia. }
+  specialize (H Hw). pose proof (lenZ_nonneg l). lia.
+Qed.
+Lemma iso_n2_le rows : iso_n2 rows <= 3 * lenZ rows * lenZ rows.
+Proof.
+  rewrite iso_n2_zsum. set (k := Z.to_nat (lenZ rows - 1)).
+  assert (Hk : Z.of_nat k <= lenZ rows) by (pose proof (lenZ_nonneg rows); lia).
+  pose proof (lenZ_nonneg rows) as Hn.
+  match goal with |- zsum ?f k 0 <= _ => pose proof (zsum_le f (3 * Z.of_nat k) k 0) as H end.
+  cbv beta in H.
+  assert (Hin : forall p, 0 <= p < 0 + Z.of_nat k ->
+            zsum (fun j => if blk (nth (Z.to_nat p) rows []) (nth (Z.to_nat (p + 1)) rows []) j then 3 else 0) k 0
+            <= 3 * Z.of_nat k).
+  { intros p _. apply zsum_le. intros j _. destruct (blk _ _ j); lia. }
+  specialize (H Hin). nia.
+Qed.
+Lemma dark_count_lsum rows : dark_count rows = lsum (fun r => lsum bit_z r) rows.
+Proof.
+  unfold dark_count, lsum at 1. apply fold_left_ext. intros a r. apply fold_add_acc.
+Qed.
+Lemma dark_count_bounds rows n :
+  0 <= n -> lenZ rows = n -> Forall (fun r => lenZ r = n) rows -> 0 <= dark_count rows <= n * n.
+Proof.
+  intros Hn Hlen Hall. rewrite dark_count_lsum. rewrite Forall_forall in Hall. split.
+  - apply lsum_nonneg. intros r _. apply lsum_nonneg. intros b _. apply bit_z_bounds.
+  - rewrite <- Hlen at 2. apply lsum_le. intros r Hr. rewrite <- (Hall r Hr).
+    pose proof (lsum_le bit_z 1 r) as H. rewrite Z.mul_1_l in H. apply H. intros b _. apply bit_z_bounds.
+Qed.
+Lemma n4_score_le n d : 0 < n -> 0 <= d <= n * n -> n4_score n d <= 100.
+Proof.
+  intros Hn Hd. unfold n4_score.
+  assert (Hq : Z.abs (100 * d - 50 * (n * n)) / (5 * (n * n)) <= 10).
+  { apply Z.div_le_upper_bound; [nia|]. apply Z.abs_le. nia. }
+  lia.
+Qed.
+
+Theorem evaluate_mask_bound : forall rows n,
+  0 < n -> lenZ rows = n -> Forall (fun r => lenZ r = n) rows ->
+  evaluate_mask n rows <= 85 * n * n + 100.
+Proof.
+  intros rows n Hn Hlen Hall. rewrite (evaluate_mask_is_iso rows n Hn Hlen Hall).
+  unfold iso_penalty.
+  rewrite (fold_left_ext (fun a l => a + iso_n1_line l + iso_n3_line l)
+                         (fun a l => a + (iso_n1_line l + iso_n3_line l))) by (intros a l; lia).
+  change (fold_left (fun a l => a + (iso_n1_line l + iso_n3_line l)) (rows ++ columns rows) 0)
+    with (lsum (fun l => iso_n1_line l + iso_n3_line l) (rows ++ columns rows)).
+  assert (Hlines : lsum (fun l => iso_n1_line l + iso_n3_line l) (rows ++ columns rows)
+                   <= (41 * n) * lenZ (rows ++ columns rows)).
+  { apply lsum_le. intros l Hl.
+    assert (Hll : lenZ l = n).
+    { apply in_app_or in Hl. destruct Hl as [Hl|Hl].
+      - rewrite Forall_forall in Hall. apply Hall. exact Hl.
+      - unfold columns in Hl. apply in_map_iff in Hl. destruct Hl as [j [Hj _]]. subst l.
+        unfold lenZ. rewrite column_length. exact Hlen. }
+    pose proof (n1_line_le l) as H1. rewrite n1_line_is_iso in H1.
+    pose proof (iso_n3_line_le l) as H3. lia. }
+  assert (Hcnt : lenZ (rows ++ columns rows) = 2 * n).
+  { unfold columns, zrange, lenZ in *. rewrite app_length, map_length, zrange_aux_length.
+    lia. }
+  pose proof (iso_n2_le rows) as H2. rewrite Hlen in H2.
+  pose proof (n4_score_le n (dark_count rows) Hn (dark_count_bounds rows n ltac:(lia) Hlen Hall)) as H4.
+  rewrite (n4_is_iso rows n Hn Hlen Hall) in H4.
+  rewrite Hcnt in Hlines. nia.
+Qed.
+
+Theorem evaluate_mask_lt_max : forall rows n,
+  0 < n <= 177 -> lenZ rows = n -> Forall (fun r => lenZ r = n) rows ->
+  evaluate_mask n rows < max_penalty.
+Proof.
+  intros rows n Hn Hlen Hall.
+  pose proof (evaluate_mask_bound rows n ltac:(lia) Hlen Hall) as H. unfold max_penalty. nia.
+Qed.
+Print Assumptions evaluate_mask_lt_max.
+
+(* ---- the complete automatic selection ---- *)
+Lemma rows_of_square size mk :
+  0 <= size -> lenZ (rows_of size mk) = size /\ Forall (fun r => lenZ r = size) (rows_of size mk).
+Proof.
+  intros Hs.
+  assert (Hz : length (zrange 0 size) = Z.to_nat size) by (unfold zrange; rewrite zrange_aux_length; lia).
+  unfold rows_of, lenZ. split.
+  - rewrite map_length, Hz. lia.
+  - apply Forall_forall. intros r Hr. apply in_map_iff in Hr. destruct Hr as [i [Hi _]]. subst r.
+    rewrite map_length, Hz. lia.
+Qed.
+
+(* the scores of the candidates, in the ISO formulation *)
+Definition iso_scores (size : Z) (micro : bool) (m : mat) (reg : list (Z * Z)) (ks : list Z) : list Z :=
+  map (fun k => let rows := rows_of size (apply_mask size m reg (iso_mask_for micro k)) in
+                if micro then iso_micro_score rows else iso_penalty rows) ks.
+
+Lemma score_of_is_iso size micro mk : 0 < size ->
+  score_of size micro mk = if micro then iso_micro_score (rows_of size mk) else iso_penalty (rows_of size mk).
+Proof.
+  intros Hs. destruct (rows_of_square size mk ltac:(lia)) as [Hlen Hall]. unfold score_of. destruct micro.
+  - apply evaluate_micro_is_iso; assumption.
+  - apply evaluate_mask_is_iso; assumption.
+Qed.
+
+Lemma scores_bounded size micro m reg ks : 0 < size <= 177 ->
+  forall s, In s (scores size micro m reg ks) -> if micro then 0 <= s else s < max_penalty.
+Proof.
+  intros Hs s Hin. unfold scores in Hin. apply in_map_iff in Hin. destruct Hin as [k [Hk _]]. subst s.
+  destruct (rows_of_square size (cand size micro m reg k) ltac:(lia)) as [Hlen Hall].
+  unfold score_of. destruct micro.
+  - apply evaluate_micro_nonneg.
+  - apply evaluate_mask_lt_max; assumption.
+Qed.
+
+Theorem find_and_apply_best_mask_auto : forall size m fm,
+  0 < size <= 177 -> function_matrix size = Ok fm ->
+  let micro := size <? 21 in
+  let reg := region size fm in
+  let best := best_index micro (scores size micro m reg (zrange 0 (if micro then 4 else 8))) in
+  find_and_apply_best_mask size m None = Ok (best, apply_mask size m reg (mask_fn micro best)).
+Proof.
+  intros size m fm Hs Hfm. cbv zeta. unfold find_and_apply_best_mask. rewrite Hfm. cbn [bind].
+  destruct (size <? 21).
+  - rewrite best_mask_micro; [reflexivity|]. apply (scores_bounded size true); exact Hs.
+  - rewrite best_mask_qr; [reflexivity|]. apply (scores_bounded size false); exact Hs.
+Qed.
+Print Assumptions find_and_apply_best_mask_auto.
+
+(* the same statement purely in ISO terms: ISO mask conditions, ISO scores *)
+Lemma apply_mask_ext size m reg (f g : Z -> Z -> bool) :
+  (forall i j, In (i, j) reg -> f i j = g i j) -> apply_mask size m reg f = apply_mask size m reg g.
+Proof.
+  intros Hfg. unfold apply_mask. apply fold_left_ext_in. intros a [i j] Hin.
+  rewrite (Hfg i j Hin). reflexivity.
+Qed.
+
+Lemma region_nonneg size fm i j : In (i, j) (region size fm) -> 0 <= i /\ 0 <= j.
+Proof.
+  intros Hin. unfold region in Hin. apply filter_In in Hin. destruct Hin as [Hin _].
+  unfold all_cells in Hin. apply in_flat_map in Hin. destruct Hin as [i' [Hi' Hin]].
+  apply in_map_iff in Hin. destruct Hin as [j' [Heq Hj']]. injection Heq as -> ->.
+  apply zrange_In_inv in Hi'. apply zrange_In_inv in Hj'. lia.
+Qed.
+
+Lemma cand_is_iso size (micro : bool) m fm k : 0 <= k < (if micro then 4 else 8) ->
+  cand size micro m (region size fm) k = apply_mask size m (region size fm) (iso_mask_for micro k).
+Proof.
+  intros Hk. unfold cand. apply apply_mask_ext. intros i j Hin.
+  destruct (region_nonneg size fm i j Hin) as [Hi Hj]. apply mask_fn_is_iso; assumption.
+Qed.
+
+Lemma scores_is_iso size (micro : bool) m fm : 0 < size ->
+  scores size micro m (region size fm) (zrange 0 (if micro then 4 else 8))
+  = iso_scores size micro m (region size fm) (zrange 0 (if micro then 4 else 8)).
+Proof.
+  intros Hs. unfold scores, iso_scores. apply map_ext_in. intros k Hk. apply zrange_In_inv in Hk.
+  rewrite score_of_is_iso by exact Hs. rewrite cand_is_iso by exact Hk. reflexivity.
+Qed.
+
+Theorem find_and_apply_best_mask_is_iso : forall size m fm,
+  0 < size <= 177 -> function_matrix size = Ok fm ->
+  let micro := size <? 21 in
+  let reg := region size fm in
+  let best := best_index micro (iso_scores size micro m reg (zrange 0 (if micro then 4 else 8))) in
+  find_and_apply_best_mask size m None = Ok (best, apply_mask size m reg (iso_mask_for micro best)).
+Proof.
+  intros size m fm Hs Hfm. cbv zeta. rewrite (find_and_apply_best_mask_auto size m fm Hs Hfm). cbv zeta.
+  rewrite scores_is_iso by lia.
+  set (micro := size <? 21).
+  set (scs := iso_scores size micro m (region size fm) (zrange 0 (if micro then 4 else 8))).
+  assert (Hlen : lenZ scs = if micro then 4 else 8).
+  { unfold scs, iso_scores, lenZ. rewrite map_length. unfold zrange. rewrite zrange_aux_length.
+    destruct micro; reflexivity. }
+  assert (Hne : scs <> []).
+  { intros Hnil. rewrite Hnil in Hlen. unfold lenZ in Hlen. cbn [length] in Hlen. destruct micro; lia. }
+  pose proof (best_index_range micro scs Hne) as Hr. rewrite Hlen in Hr.
+  pose proof (cand_is_iso size micro m fm (best_index micro scs) Hr) as Hc. unfold cand in Hc.
+  rewrite Hc. reflexivity.
+Qed.
+Print Assumptions find_and_apply_best_mask_is_iso.
+
+(* ------------------------------------------------------------------ *)
+(* examples                                                            *)
+(* ------------------------------------------------------------------ *)
+Definition checker21 : list (list bool) :=
+  map (fun i => map (fun j => Z.even (i + j)) (zrange 0 21)) (zrange 0 21).
+Example checker21_model : evaluate_mask 21 checker21 = 0.
+Proof. vm_compute. reflexivity. Qed.
+Example checker21_iso : iso_penalty checker21 = 0.
+Proof. vm_compute. reflexivity. Qed.
+
+(* a 21x21 matrix on which all four features are present: N1 = 173, N2 = 498, N3 = 1720, N4 = 10 *)
+Definition stripes21 : list (list bool) :=
+  map (fun i => map (fun j =>
+    nth (Z.to_nat ((i + j) mod 11)) [true; false; true; true; true; false; true; false; false; false; false] false
+    || (i <? 5)) (zrange 0 21)) (zrange 0 21).
+Example stripes21_model : mask_scores 21 stripes21 = (173, 498, 1720, 10) /\ evaluate_mask 21 stripes21 = 2401.
+Proof. vm_compute. split; reflexivity. Qed.
+Example stripes21_iso : iso_penalty stripes21 = 2401.
+Proof. vm_compute. reflexivity. Qed.
+Example stripes21_micro : evaluate_micro_mask 21 stripes21 = 172 /\ iso_micro_score stripes21 = 172.
+Proof. vm_compute. split; reflexivity. Qed.
